@@ -80,7 +80,18 @@ func (r *Run) get(st *State, key string) string {
 	if t, ok := st.mem[key]; ok {
 		return t
 	}
+	if strings.HasPrefix(key, "B:") {
+		return r.initial(key[2:])
+	}
 	return r.initial(key)
+}
+
+// baseline: "B:"+key tracks the entry value of key updated by interference (what other
+// goroutines may have done while a lock was not held); frame obligations compare against it.
+func (r *Run) baseStore(st *State, key, idx, val string) {
+	bk := "B:" + key
+	r.declKey(bk, r.keySort(key))
+	st.mem[bk] = r.facts.Define("base", r.keySort(key), sStore(r.get(st, bk), idx, val))
 }
 
 func (r *Run) set(st *State, key, term string) {
